@@ -110,6 +110,11 @@ func runVerbatim(c Case, src string, res *Result) {
 			res.add(Finding{Kind: "oracle", Where: "verbatim", Case: c, Observed: hx(o1), Detail: "literal text of the verbatim body is missing from the output"})
 		}
 	}
+	if want, has := c["exact"]; has {
+		if w := unhex(want.(string)); o1 != w {
+			res.add(Finding{Kind: "oracle", Where: "verbatim", Case: c, Expected: hx(w), Observed: hx(o1), Detail: "the literal text does not reach the output byte for byte (escaping backslashes apart)"})
+		}
+	}
 	if want, has := c["body_end"]; has {
 		if !strings.Contains(o1, unhex(want.(string))) {
 			res.add(Finding{Kind: "oracle", Where: "verbatim", Case: c, Observed: hx(o1), Detail: "the end of the verbatim body is missing from the output"})
